@@ -409,6 +409,8 @@ Proof.
   intros Hm Hv. unfold hm_insert, hm_remove. rewrite values_ok_app, (values_ok_filter _ _ Hm).
   unfold hm_values_ok. cbn [forallb snd]. now rewrite Hv.
 Qed.
+Lemma values_ok_remove m k : hm_values_ok m = true -> hm_values_ok (hm_remove m k) = true.
+Proof. intros Hm. unfold hm_remove. now apply values_ok_filter. Qed.
 Lemma values_ok_extend m o : hm_values_ok m = true -> hm_values_ok o = true -> hm_values_ok (hm_extend m o) = true.
 Proof. intros Hm Ho. unfold hm_extend. now rewrite values_ok_app, (values_ok_filter _ _ Hm), Ho. Qed.
 Lemma values_ok_sanitize md : hm_values_ok md = true -> hm_values_ok (sanitize md) = true.
@@ -446,12 +448,12 @@ Proof.
   destruct (code_to_hv (st_code st)) as [cv|] eqn:Ecv; [|discriminate].
   pose proof (values_ok_insert _ hdr_grpc_status cv H1 (code_hv_ok _ _ Ecv)) as H2.
   destruct (st_msg st) as [|a l].
-  - destruct (st_details st) as [|a' l']; [now intros [= <-]|].
+  - destruct (st_details st) as [|a' l']; [intros [= <-]; now apply values_ok_remove|].
     destruct (mk_hv _) as [v|] eqn:Ev; [|discriminate]. apply mk_hv_some in Ev as [-> Hv].
     intros [= <-]. now apply values_ok_insert.
   - destruct (mk_hv (pct_encode _ _)) as [v|] eqn:Ev; [|discriminate]. apply mk_hv_some in Ev as [-> Hv].
     pose proof (values_ok_insert _ hdr_grpc_message _ H2 Hv) as H3.
-    destruct (st_details st) as [|a' l']; [now intros [= <-]|].
+    destruct (st_details st) as [|a' l']; [intros [= <-]; now apply values_ok_remove|].
     destruct (mk_hv _) as [v'|] eqn:Ev'; [|discriminate]. apply mk_hv_some in Ev' as [-> Hv'].
     intros [= <-]. now apply values_ok_insert.
 Qed.
@@ -467,12 +469,14 @@ Qed.
 (* ================================================================= writing into any map, pointwise *)
 Definition is_nil {A} (l : list A) : bool := match l with [] => true | _ => false end.
 
+(* since fix ed827503 (F-C04e) the details header of the finished map is the status's own details
+   or nothing: neither the target map's nor the metadata's entry of that name survives *)
 Definition written_into (st : status) (cv : list N) (m : hm) (k : hname) : list hvalue :=
   if bytes_eqb k hdr_grpc_status then [cv]
   else if bytes_eqb k hdr_grpc_message && negb (is_nil (st_msg st)) then
     [pct_encode in_encoding_set (st_msg st)]
-  else if bytes_eqb k hdr_grpc_status_details && negb (is_nil (st_details st)) then
-    [enc false (st_details st)]
+  else if bytes_eqb k hdr_grpc_status_details then
+    match st_details st with [] => [] | _ => [enc false (st_details st)] end
   else hm_get_all (hm_extend m (sanitize (st_md st))) k.
 
 Ltac kcase k :=
@@ -487,7 +491,9 @@ Ltac kcase k :=
 Ltac ins_simpl :=
   repeat first
     [ rewrite get_all_insert_same
-    | rewrite get_all_insert_other by (first [assumption | rewrite bytes_eqb_sym; assumption]) ].
+    | rewrite get_all_remove_same
+    | rewrite get_all_insert_other by (first [assumption | rewrite bytes_eqb_sym; assumption])
+    | rewrite get_all_remove_other by (first [assumption | rewrite bytes_eqb_sym; assumption]) ].
 
 Lemma add_header_pointwise_gen st m m' cv :
   code_to_hv (st_code st) = Some cv -> add_header st m = Some m' ->
@@ -501,11 +507,11 @@ Proof.
     + intros [= <-] k. unfold written_into. rewrite Emsg, Edet. cbn [is_nil negb]. rewrite !andb_false_r.
       fold m1. kcase k; rewrite ?bytes_eqb_refl, ?MS, ?DS, ?DM; ins_simpl; reflexivity.
     + destruct (mk_hv _) as [v|] eqn:Ev; [|discriminate]. apply mk_hv_some in Ev as [-> _].
-      intros [= <-] k. unfold written_into. rewrite Emsg, Edet. cbn [is_nil negb]. rewrite andb_false_r, andb_true_r.
+      intros [= <-] k. unfold written_into. rewrite Emsg, Edet. cbn [is_nil negb]. rewrite andb_false_r.
       fold m1. kcase k; rewrite ?bytes_eqb_refl, ?MS, ?DS, ?DM; ins_simpl; reflexivity.
   - destruct (mk_hv (pct_encode _ _)) as [v|] eqn:Ev; [|discriminate]. apply mk_hv_some in Ev as [-> _].
     destruct (st_details st) as [|a' l'] eqn:Edet.
-    + intros [= <-] k. unfold written_into. rewrite Emsg, Edet. cbn [is_nil negb]. rewrite andb_false_r, andb_true_r.
+    + intros [= <-] k. unfold written_into. rewrite Emsg, Edet. cbn [is_nil negb]. rewrite andb_true_r.
       fold m1. kcase k; rewrite ?bytes_eqb_refl, ?MS, ?DS, ?DM; ins_simpl; reflexivity.
     + destruct (mk_hv _) as [v'|] eqn:Ev'; [|discriminate]. apply mk_hv_some in Ev' as [-> _].
       intros [= <-] k. unfold written_into. rewrite Emsg, Edet. cbn [is_nil negb]. rewrite !andb_true_r.
@@ -534,42 +540,59 @@ Qed.
 Definition is_status_name (k : hname) : bool :=
   bytes_eqb k hdr_grpc_status || bytes_eqb k hdr_grpc_message || bytes_eqb k hdr_grpc_status_details.
 
-(* the round trip through ANY target map that does not already carry a grpc-message /
-   grpc-status-details-bin of its own (a fresh map, the response head of into_http, a
-   trailers map): code, message, details equal; the metadata read back is the target map
-   extended by the sanitized metadata, minus the three status headers *)
+(* what the reader delivers of a sanitised metadata: everything but an entry filed under
+   grpc-status-details-bin - the only status header name that survives sanitising, and a name
+   from_header_map always strips *)
+Definition md_delivered (md : hm) (k : hname) : list hvalue :=
+  if bytes_eqb k hdr_grpc_status_details then [] else hm_get_all (sanitize md) k.
+
+(* with no entry of that name the whole sanitised metadata is delivered: the premise of the
+   round trips before fix ed827503 now matters for this, and only for this *)
+Lemma md_delivered_whole md :
+  hm_get_all md hdr_grpc_status_details = [] ->
+  forall k, md_delivered md k = hm_get_all (sanitize md) k.
+Proof.
+  intros Hnod k. unfold md_delivered. destruct (bytes_eqb k hdr_grpc_status_details) eqn:K3; [|reflexivity].
+  apply bytes_eqb_eq in K3. subst k. now rewrite get_all_sanitize, reserved_details, Hnod.
+Qed.
+(* ... and conversely an entry of that name is the only thing that is lost *)
+Lemma md_delivered_other md k :
+  bytes_eqb k hdr_grpc_status_details = false -> md_delivered md k = hm_get_all (sanitize md) k.
+Proof. intros K. unfold md_delivered. now rewrite K. Qed.
+Lemma md_delivered_details md : md_delivered md hdr_grpc_status_details = [].
+Proof. reflexivity. Qed.
+
+(* the round trip through ANY target map that does not already carry a grpc-message of its own
+   (a fresh map, the response head of into_http, a trailers map), for EVERY status metadata and
+   whatever the target map holds under grpc-status-details-bin (since fix ed827503, F-C04e, a
+   status without details removes that header, a status with details replaces it): code,
+   message, details equal; the metadata read back is the target map extended by the sanitized
+   metadata, minus the three status headers *)
 Theorem add_header_roundtrip_gen st m0 m :
   well_formed st -> utf8_valid (st_msg st) = true ->
-  hm_get_all (st_md st) hdr_grpc_status_details = [] ->
-  hm_get_all m0 hdr_grpc_message = [] -> hm_get_all m0 hdr_grpc_status_details = [] ->
+  hm_get_all m0 hdr_grpc_message = [] ->
   add_header st m0 = Some m ->
   exists st', from_header_map m = Some st' /\
     st_code st' = st_code st /\ st_msg st' = st_msg st /\ st_details st' = st_details st /\
     forall k, hm_get_all (st_md st') k =
               if is_status_name k then [] else hm_get_all (hm_extend m0 (sanitize (st_md st))) k.
 Proof.
-  intros WF Hutf Hnod M0m M0d Hadd. pose proof WF as (Hc & Hm & Hd).
+  intros WF Hutf M0m Hadd. pose proof WF as (Hc & Hm & Hd).
   destruct (code_roundtrip _ Hc) as [cv (Hcv & Hback & _)].
   pose proof (add_header_pointwise_gen st m0 m cv Hcv Hadd) as Hpt.
   destruct names_distinct as (SM & SD & MD & MS & DS & DM).
-  assert (B : forall k, bytes_eqb k hdr_grpc_message = true \/ bytes_eqb k hdr_grpc_status_details = true ->
-              hm_get_all (hm_extend m0 (sanitize (st_md st))) k = []).
-  { intros k Hk. rewrite get_all_extend.
-    destruct Hk as [Hk|Hk]; apply bytes_eqb_eq in Hk; subst k.
-    - rewrite sanitize_no_message. exact M0m.
-    - rewrite get_all_sanitize, reserved_details, Hnod. destruct (hm_contains _ _); [reflexivity|exact M0d]. }
+  assert (B : hm_get_all (hm_extend m0 (sanitize (st_md st))) hdr_grpc_message = []).
+  { rewrite get_all_extend. rewrite sanitize_no_message. exact M0m. }
   assert (GS : hm_get_all m hdr_grpc_status = [cv]).
   { rewrite Hpt. unfold written_into. now rewrite bytes_eqb_refl. }
   assert (GM : hm_get_all m hdr_grpc_message =
                match st_msg st with [] => [] | _ => [pct_encode in_encoding_set (st_msg st)] end).
   { rewrite Hpt. unfold written_into. rewrite MS, bytes_eqb_refl.
     destruct (st_msg st); cbn [is_nil negb andb]; [|reflexivity].
-    rewrite MD. cbn [andb]. apply B. left. apply bytes_eqb_refl. }
+    rewrite MD. exact B. }
   assert (GD : hm_get_all m hdr_grpc_status_details =
                match st_details st with [] => [] | _ => [enc false (st_details st)] end).
-  { rewrite Hpt. unfold written_into. rewrite DS, DM, bytes_eqb_refl. cbn [andb].
-    destruct (st_details st); cbn [is_nil negb]; [|reflexivity].
-    apply B. right. apply bytes_eqb_refl. }
+  { rewrite Hpt. unfold written_into. rewrite DS, DM, bytes_eqb_refl. cbn [andb]. reflexivity. }
   rewrite (from_header_map_read m cv (st_msg st) (st_details st) GS GM GD Hm Hutf Hd).
   eexists. split; [reflexivity|]. cbn [st_code st_msg st_details st_md].
   repeat split; [exact Hback|].
@@ -581,33 +604,34 @@ Proof.
 Qed.
 
 (* ---- the trailers of a server stream (Status::to_header_map), full strength, capacity
-   included: written and read back equal for EVERY status whose finished map fits into an
-   http::HeaderMap (the bound is the data type's: 24576 distinct names); outside the bound the
-   outcome is the explicit Panic (to_header_map_c_panics_iff) ---- *)
+   included: written and read back equal for EVERY status - every metadata, entries named
+   grpc-status-details-bin included - whose finished map fits into an http::HeaderMap (the bound
+   is the data type's: 24576 distinct names); outside the bound the outcome is the explicit
+   Panic (to_header_map_c_panics_iff).  Code, message and details are exact; the metadata is
+   delivered name by name except under grpc-status-details-bin, where nothing can be
+   ([md_delivered]) ---- *)
 Theorem trailers_roundtrip st :
   well_formed st -> utf8_valid (st_msg st) = true ->
-  hm_get_all (st_md st) hdr_grpc_status_details = [] ->
   hm_names (sanitize (st_md st)) + n_written st <= HM_MAX_NAMES ->
   exists m st',
     to_header_map_c st = WOk m /\
     from_header_map m = Some st' /\
     st_code st' = st_code st /\ st_msg st' = st_msg st /\ st_details st' = st_details st /\
-    forall k, hm_get_all (st_md st') k = hm_get_all (sanitize (st_md st)) k.
+    forall k, hm_get_all (st_md st') k = md_delivered (st_md st) k.
 Proof.
-  intros WF Hutf Hnod Hroom.
+  intros WF Hutf Hroom.
   destruct (to_header_map_c st) as [m| |] eqn:E.
   - exists m. rewrite to_header_map_c_eq in E.
     pose proof (add_header_c_refines st []) as R. rewrite E in R.
-    destruct (add_header_roundtrip_gen st [] m WF Hutf Hnod eq_refl eq_refl R) as (st' & F & C & M & D & MDk).
+    destruct (add_header_roundtrip_gen st [] m WF Hutf eq_refl R) as (st' & F & C & M & D & MDk).
     exists st'. repeat split; try assumption.
-    intros k. rewrite MDk. unfold is_status_name.
+    intros k. rewrite MDk. unfold is_status_name, md_delivered.
     change (hm_extend [] (sanitize (st_md st))) with (sanitize (st_md st)).
     destruct (bytes_eqb k hdr_grpc_status) eqn:K1.
     { apply bytes_eqb_eq in K1. subst k. cbn [orb]. now rewrite get_all_sanitize, reserved_status. }
     destruct (bytes_eqb k hdr_grpc_message) eqn:K2.
     { apply bytes_eqb_eq in K2. subst k. cbn [orb]. now rewrite get_all_sanitize, reserved_message. }
-    destruct (bytes_eqb k hdr_grpc_status_details) eqn:K3; [|reflexivity].
-    apply bytes_eqb_eq in K3. subst k. cbn [orb]. now rewrite get_all_sanitize, reserved_details, Hnod.
+    destruct (bytes_eqb k hdr_grpc_status_details) eqn:K3; reflexivity.
   - exfalso. rewrite to_header_map_c_eq in E. now apply (add_header_c_never_err st [] WF).
   - exfalso. apply (to_header_map_c_panics_iff st WF) in E. lia.
 Qed.
@@ -616,7 +640,6 @@ Qed.
    the status is read back equal, for every status that fits ---- *)
 Theorem into_http_roundtrip st :
   well_formed st -> utf8_valid (st_msg st) = true ->
-  hm_get_all (st_md st) hdr_grpc_status_details = [] ->
   hm_names (sanitize (st_md st)) + 4 <= HM_MAX_NAMES ->
   exists m st',
     into_http_c st = Some m /\
@@ -625,15 +648,15 @@ Theorem into_http_roundtrip st :
     st_code st' = st_code st /\ st_msg st' = st_msg st /\ st_details st' = st_details st /\
     forall k, hm_get_all (st_md st') k =
               if bytes_eqb k hdr_content_type then [grpc_content_type]
-              else hm_get_all (sanitize (st_md st)) k.
+              else md_delivered (st_md st) k.
 Proof.
-  intros WF Hutf Hnod Hroom. unfold into_http_c.
+  intros WF Hutf Hroom. unfold into_http_c.
   change (insert_c [] hdr_content_type grpc_content_type) with (Some [(hdr_content_type, grpc_content_type)]).
   set (m0 := [(hdr_content_type, grpc_content_type)]).
   destruct (add_header_c_fits st m0 WF) as (m & Hc & Ha).
   { change (hm_names m0) with 1. lia. }
   rewrite Hc. exists m.
-  destruct (add_header_roundtrip_gen st m0 m WF Hutf Hnod eq_refl eq_refl Ha) as (st' & F & C & M & D & MDk).
+  destruct (add_header_roundtrip_gen st m0 m WF Hutf eq_refl Ha) as (st' & F & C & M & D & MDk).
   pose proof WF as (Hcode & _ & _). destruct (code_roundtrip _ Hcode) as [cv (Hcv & _ & _)].
   pose proof (add_header_pointwise_gen st m0 m cv Hcv Ha) as Hpt.
   assert (X : forall k, hm_get_all (hm_extend m0 (sanitize (st_md st))) k =
@@ -651,16 +674,17 @@ Proof.
     change (bytes_eqb hdr_content_type hdr_grpc_status_details) with false.
     cbn [andb]. rewrite X. now rewrite bytes_eqb_refl. }
   repeat split; try assumption.
-  intros k. rewrite MDk, X. unfold is_status_name.
+  intros k. rewrite MDk, X. unfold is_status_name, md_delivered.
   destruct (bytes_eqb k hdr_grpc_status) eqn:K1.
   { apply bytes_eqb_eq in K1. subst k. cbn [orb]. change (bytes_eqb hdr_grpc_status hdr_content_type) with false.
+    change (bytes_eqb hdr_grpc_status hdr_grpc_status_details) with false.
     now rewrite get_all_sanitize, reserved_status. }
   destruct (bytes_eqb k hdr_grpc_message) eqn:K2.
   { apply bytes_eqb_eq in K2. subst k. cbn [orb]. change (bytes_eqb hdr_grpc_message hdr_content_type) with false.
+    change (bytes_eqb hdr_grpc_message hdr_grpc_status_details) with false.
     now rewrite get_all_sanitize, reserved_message. }
   destruct (bytes_eqb k hdr_grpc_status_details) eqn:K3; [|reflexivity].
-  apply bytes_eqb_eq in K3. subst k. cbn [orb]. change (bytes_eqb hdr_grpc_status_details hdr_content_type) with false.
-  now rewrite get_all_sanitize, reserved_details, Hnod.
+  apply bytes_eqb_eq in K3. subst k. cbn [orb]. reflexivity.
 Qed.
 
 (* ================================================================= status inference *)
@@ -802,33 +826,47 @@ Theorem from_error_h2_strict r rest : h2_spec_strict r (from_error_code (EH2 (So
 Proof. cbn. apply h2_table_strict. Qed.
 
 (* ================================================================= the capacity-aware statements *)
-(* writing into any target map that carries no stale grpc-message / grpc-status-details-bin:
-   whenever the write succeeds, reading gives the status back *)
+(* writing into any target map that carries no stale grpc-message (a stale
+   grpc-status-details-bin of the target map, or one among the status metadata, no longer
+   matters: fix ed827503): whenever the write succeeds, reading gives the status back *)
 Theorem add_header_c_roundtrip st m0 m :
   well_formed st -> utf8_valid (st_msg st) = true ->
-  hm_get_all (st_md st) hdr_grpc_status_details = [] ->
-  hm_get_all m0 hdr_grpc_message = [] -> hm_get_all m0 hdr_grpc_status_details = [] ->
+  hm_get_all m0 hdr_grpc_message = [] ->
   add_header_c st m0 = WOk m ->
   exists st', from_header_map m = Some st' /\
     st_code st' = st_code st /\ st_msg st' = st_msg st /\ st_details st' = st_details st /\
     forall k, hm_get_all (st_md st') k =
               if is_status_name k then [] else hm_get_all (hm_extend m0 (sanitize (st_md st))) k.
 Proof.
-  intros WF Hutf Hnod M0m M0d H. pose proof (add_header_c_refines st m0) as R. rewrite H in R.
-  exact (add_header_roundtrip_gen st m0 m WF Hutf Hnod M0m M0d R).
+  intros WF Hutf M0m H. pose proof (add_header_c_refines st m0) as R. rewrite H in R.
+  exact (add_header_roundtrip_gen st m0 m WF Hutf M0m R).
 Qed.
 
 (* add_header into a fresh map (what the kind roundtrip runs) *)
 Theorem fresh_roundtrip st :
   well_formed st -> utf8_valid (st_msg st) = true ->
-  hm_get_all (st_md st) hdr_grpc_status_details = [] ->
   hm_names (sanitize (st_md st)) + n_written st <= HM_MAX_NAMES ->
   exists m st',
     add_header_c st [] = WOk m /\
     from_header_map m = Some st' /\
     st_code st' = st_code st /\ st_msg st' = st_msg st /\ st_details st' = st_details st /\
-    forall k, hm_get_all (st_md st') k = hm_get_all (sanitize (st_md st)) k.
+    forall k, hm_get_all (st_md st') k = md_delivered (st_md st) k.
 Proof. rewrite <- to_header_map_c_eq. apply trailers_roundtrip. Qed.
+
+(* the finding F-C04e as a statement about the written map: the details header of the finished
+   map never comes from the metadata or from the target map *)
+Theorem details_header_is_own st m0 m :
+  add_header_c st m0 = WOk m ->
+  hm_get_all m hdr_grpc_status_details =
+  match st_details st with [] => [] | _ => [enc false (st_details st)] end.
+Proof.
+  intros H. pose proof (add_header_c_refines st m0) as R. rewrite H in R.
+  destruct (code_to_hv (st_code st)) as [cv|] eqn:Hcv.
+  - rewrite (add_header_pointwise_gen st m0 m cv Hcv R). unfold written_into.
+    destruct names_distinct as (SM & SD & MD & MS & DS & DM).
+    now rewrite DS, DM, bytes_eqb_refl.
+  - unfold add_header in R. rewrite Hcv in R. discriminate.
+Qed.
 
 (* ================================================================= reading, exactly *)
 (* from_header_map strips exactly the three status headers from what becomes the metadata *)
@@ -841,6 +879,19 @@ Proof.
     [destruct (utf8_valid (pct_decode h))|];
     (destruct (hm_get m hdr_grpc_status_details) as [d|]; [destruct (dec d)|]);
     intros [= <-] k; cbn [st_md]; apply get_all_remove3.
+Qed.
+
+(* in particular nothing is ever delivered under the three status header names: an entry the
+   user filed under grpc-status-details-bin (the only one of the three that survives sanitising)
+   cannot reach the receiver as metadata *)
+Corollary status_names_never_delivered m st :
+  from_header_map m = Some st ->
+  hm_get_all (st_md st) hdr_grpc_status = [] /\
+  hm_get_all (st_md st) hdr_grpc_message = [] /\
+  hm_get_all (st_md st) hdr_grpc_status_details = [].
+Proof.
+  intros H. pose proof (from_header_map_metadata m st H) as P.
+  repeat split; rewrite P; reflexivity.
 Qed.
 
 (* decodable fields are read exactly (no degradation, no normalisation) *)
